@@ -24,6 +24,7 @@ import (
 	"reflect"
 
 	compact_time "github.com/kstenerud/go-compact-time"
+	"github.com/kstenerud/go-concise-encoding/internal/common"
 )
 
 // Go Time
@@ -36,7 +37,7 @@ func generateTimeBuilder(ctx *Context) Builder { return globalTimeBuilder }
 func (_this *timeBuilder) String() string      { return reflect.TypeOf(_this).String() }
 
 func (_this *timeBuilder) BuildFromTime(ctx *Context, value compact_time.Time, dst reflect.Value) reflect.Value {
-	v, err := value.AsGoTime()
+	v, err := common.CompactTimeToGoTime(value)
 	if err != nil {
 		panic(err)
 	}
